@@ -15,6 +15,9 @@ history of K, field "specAgrees"):
 -/
 import Proofs.Lemmas.Store
 import Proofs.Lemmas.StoreEq
+import Proofs.Lemmas.StoreClient
+import Proofs.Lemmas.StoreLaws
+import Proofs.Lemmas.StoreAlias
 
 set_option linter.unusedSimpArgs false
 
@@ -164,9 +167,9 @@ theorem C10_refines_spec_fails_for_incoherent_schema :
     EnumerateInstances answers INVALID_NAMESPACE, INVALID_CLASS or a list – never NOT_FOUND (the failure the
     multi-namespace ModifyInstance defect produced), never anything else. -/
 theorem C10_enumerate_total (r : Repo) (hinv : Inv r) (ns : Option Name) (cls : Name) (di : Option Bool)
-    (pl : Option (List Name)) :
-    (stepEnumInsts r ns cls di pl).2 = errNs ∨ (stepEnumInsts r ns cls di pl).2 = errClass ∨
-      ∃ l, (stepEnumInsts r ns cls di pl).2 = .insts l := by
+    (pl : Option (List Name)) (o : RetOpts := {}) :
+    (stepEnumInsts r ns cls di pl o).2 = errNs ∨ (stepEnumInsts r ns cls di pl o).2 = errClass ∨
+      ∃ l, (stepEnumInsts r ns cls di pl o).2 = .insts l := by
   unfold stepEnumInsts
   cases hns : findNs r (effNs r ns) with
   | none => simp [hns]
@@ -176,7 +179,7 @@ theorem C10_enumerate_total (r : Repo) (hinv : Inv r) (ns : Option Name) (cls : 
     | some c =>
       have hie := hinv.entries e (findNs_mem hns).1
       simp only [hns, hcl]
-      rw [enumCollect_ok _ _ _ hie.uniq hie.pathKey _ (fun s hs => (List.mem_filter.mp hs).1)]
+      rw [enumCollect_ok _ _ _ _ _ hie.uniq hie.pathKey _ (fun s hs => (List.mem_filter.mp hs).1)]
       exact Or.inr (Or.inr ⟨_, rfl⟩)
 
 /-- … and without the invariant it does: a stored instance whose own path differs from its key
@@ -195,16 +198,17 @@ theorem C10_enumerate_total_fails_without_invariant :
 /-- **Status codes of GetInstance, exactly.**  INVALID_NAMESPACE iff the namespace does not exist; otherwise
     INVALID_CLASS iff the class of the path does not exist there; otherwise NOT_FOUND iff no stored key equals
     the path (up to case and order); otherwise the stored properties, filtered, under the requested path. -/
-theorem C10_get_status_exact (r : Repo) (path : Path) (pl : Option (List Name)) :
+theorem C10_get_status_exact (r : Repo) (path : Path) (pl : Option (List Name)) (o : RetOpts := {}) :
     let ns := effNs r path.ns
     let p := reqPath ns path
-    (findNs r ns = none → (stepGet r path pl).2 = errNs) ∧
-    (∀ e, findNs r ns = some e → findCls e.classes path.cls = none → (stepGet r path pl).2 = errClass) ∧
+    (findNs r ns = none → (stepGet r path pl o).2 = errNs) ∧
+    (∀ e, findNs r ns = some e → findCls e.classes path.cls = none → (stepGet r path pl o).2 = errClass) ∧
     (∀ e c, findNs r ns = some e → findCls e.classes path.cls = some c →
-        (∀ s ∈ e.insts, normPath s.key ≠ normPath p) → (stepGet r path pl).2 = errNotFound) ∧
+        (∀ s ∈ e.insts, normPath s.key ≠ normPath p) → (stepGet r path pl o).2 = errNotFound) ∧
     (∀ e c s, findNs r ns = some e → findCls e.classes path.cls = some c → lookupInst e.insts p = some s →
-        (stepGet r path pl).2 = .inst { cls := s.inst.cls, path := p, props := filterProps pl s.inst.props }) ∧
-    (stepGet r path pl).1 = r := by
+        (stepGet r path pl o).2 = .inst ⟨s.inst.cls, p,
+          removeClassOrigin (removeQualifiers (filterProps pl s.inst.props)), false⟩) ∧
+    (stepGet r path pl o).1 = r := by
   intro ns p
   unfold stepGet
   refine ⟨?_, ?_, ?_, ?_, ?_⟩
@@ -226,20 +230,20 @@ theorem C10_get_status_exact (r : Repo) (path : Path) (pl : Option (List Name)) 
     simp only [ns] at h
     have hp : (reqPath (effNs r path.ns) path).cls = path.cls := rfl
     simp only [p, ns] at hl
-    simp [h, hp, hc, hl]
+    simp [h, hp, hc, hl, getInstancePost_eq, retrieveSimple]
     rfl
-  · have := (sim_get r path pl).2.1
+  · have := (sim_get r path pl o).2.1
     unfold stepGet at this
     exact this
 
 /-- **Case and order of names do not matter.**  Two GetInstance requests whose paths have the same normal
     form (class name, namespace, key names in any lexical case; keybindings in any order; boolean keys as
     integers) have the same outcome up to the lexical case of the returned path. -/
-theorem C10_get_case_insensitive (r : Repo) (p q : Path) (pl : Option (List Name))
+theorem C10_get_case_insensitive (r : Repo) (p q : Path) (pl : Option (List Name)) (o : RetOpts := {})
     (h : normPath { p with ns := some (effNs r p.ns), host := none } = normPath { q with ns := some (effNs r q.ns), host := none }) :
-    normOut (stepGet r p pl).2 = normOut (stepGet r q pl).2 := by
-  have hp := (sim_get r p pl).1
-  have hq := (sim_get r q pl).1
+    normOut (stepGet r p pl o).2 = normOut (stepGet r q pl o).2 := by
+  have hp := (sim_get r p pl o).1
+  have hq := (sim_get r q pl o).1
   rw [hp, hq]
   unfold specGet
   have hd : (abs r).dflt = r.dflt := rfl
@@ -265,7 +269,8 @@ theorem C10_get_case_insensitive (r : Repo) (p q : Path) (pl : Option (List Name
     by the PropertyList. -/
 theorem C10_create_then_get_partial (r r' : Repo) (nsArg : Option Name) (inst : Inst) (p : Path)
     (pl : Option (List Name)) (hna : NoAssoc r) (h : stepCreate r nsArg inst = (r', .path p)) :
-    ∃ ps, (stepGet r' p pl).2 = .inst { cls := inst.cls, path := p, props := filterProps pl ps } ∧
+    ∃ ps, (stepGet r' p pl).2 =
+        .inst ⟨inst.cls, p, removeClassOrigin (removeQualifiers (filterProps pl ps)), false⟩ ∧
       ps.map (fun q => (lower q.name, q.ty, q.isArr, q.val)) =
         inst.props.map (fun q => (lower q.name, q.ty, q.isArr, q.val)) := by
   obtain ⟨c, hc⟩ := get_after_create pl hna h
@@ -334,14 +339,14 @@ theorem C10_type_error_needs_nonscalar_value (r : Repo) (op : Op) (ht : Tame r o
     simp only [] at hs
     repeat' split at hs
     all_goals simp [errNs, errClass, errParam, errNotFound] at hs
-  | get p pl =>
+  | get p pl o =>
     exfalso
     simp only [sstep] at hs
     unfold specGet at hs
     simp only [] at hs
     repeat' split at hs
     all_goals simp [errNs, errClass, errParam, errNotFound] at hs
-  | enumInsts ns c di pl =>
+  | enumInsts ns c di pl o =>
     exfalso
     simp only [sstep] at hs
     unfold specEnumInsts at hs
@@ -416,5 +421,327 @@ theorem C10_model_config_pinned :
     defaultDeepInheritance = true ∧
     cimErrInvalidNamespace = 3 ∧ cimErrInvalidParameter = 4 ∧ cimErrInvalidClass = 5 ∧ cimErrNotFound = 6 ∧
     cimErrAlreadyExists = 11 := by decide
+
+/-! ### the public calls: client-side argument handling in front of the store -/
+
+/-- **Refinement for public calls.**  The same statement as `C10_refines_spec` one layer further out: histories of
+    `FakedWBEMConnection` method calls with arbitrary Python arguments (namespace / class name / instance name /
+    instance / PropertyList / boolean options of the right or of a wrong type, namespace given directly, with
+    slashes, or through the object) – `callToOp` is the method's own argument handling. -/
+theorem C10_calls_refine_spec (r : Repo) (calls : List Call) (hf : Fresh r) (ht : TameCalls r calls) :
+    (Pywbem.Model.Store.runCalls r calls).2.map normOut = (Pywbem.Model.StoreSpec.runCalls (abs r) calls).2
+      ∧ abs (Pywbem.Model.Store.runCalls r calls).1 = (Pywbem.Model.StoreSpec.runCalls (abs r) calls).1 := by
+  have h := sim_runCalls calls r ht (inv_empty r hf.nsUniq hf.empty)
+  exact ⟨h.1, h.2.1⟩
+
+/-- non-vacuity: schemas without association classes admit every list of calls -/
+example (calls : List Call) : TameCalls demoRepo calls := by
+  refine Or.inl ?_
+  intro e he c hc; simp [demoRepo] at he; rcases he with rfl | rfl <;> simp at hc <;> subst hc <;> rfl
+
+/-- **Only documented exceptions escape a public call**: a result, one of the five CIM status codes, TypeError
+    (an argument of a wrong Python type; or the non-scalar key value of `C10_type_error_needs_nonscalar_value`),
+    or ValueError (ModifyInstance with an instance that has no path). -/
+theorem C10_calls_only_documented_errors (r : Repo) (calls : List Call) (hf : Fresh r) (ht : TameCalls r calls) :
+    ∀ o ∈ (Pywbem.Model.Store.runCalls r calls).2, DocumentedCall o := by
+  intro o ho
+  have h := (sim_runCalls calls r ht (inv_empty r hf.nsUniq hf.empty)).1
+  have : normOut o ∈ (Pywbem.Model.StoreSpec.runCalls (abs r) calls).2 := by
+    rw [← h]; exact List.mem_map_of_mem ho
+  exact documentedCall_normOut (srunCalls_documented calls (abs r) _ this)
+
+/-- **A refused call changes nothing**, and it is refused with TypeError or ValueError (no hypotheses). -/
+theorem C10_bad_argument_changes_nothing (r : Repo) (c : Call) (e : PyExc) (h : callToOp c = .error e) :
+    stepCall r c = (r, .err e) ∧ (e = .typeError ∨ e = .valueError) := by
+  refine ⟨?_, callToOp_err h⟩
+  unfold stepCall; rw [h]
+
+example : callToOp (.modifyInstance (.inst ⟨"C".toList, [], false⟩ none) .none .none) = .error .valueError := rfl
+example : callToOp (.getInstance .other .none .none .none .none) = .error .typeError := rfl
+
+/-- **LocalOnly, IncludeQualifiers and IncludeClassOrigin do not reach the result** of GetInstance and
+    EnumerateInstances (any values of the right type): with the configuration constants of the mock
+    (`C10_model_config_pinned`) `_get_instance` removes qualifiers and class origins unconditionally and never
+    applies LocalOnly. -/
+theorem C10_retrieval_options_ignored (r : Repo) (p : Path) (pl : Option (List Name)) (ns : Option Name) (cls : Name)
+    (di : Option Bool) (o o' : RetOpts) :
+    step r (.get p pl o) = step r (.get p pl o') ∧
+    step r (.enumInsts ns cls di pl o) = step r (.enumInsts ns cls di pl o') :=
+  ⟨stepGet_opts r p pl o o', stepEnumInsts_opts r ns cls di pl o o'⟩
+
+/-- … and what is returned carries no qualifiers and no class origins, whatever was stored -/
+theorem C10_retrieved_properties_are_bare (r : Repo) (p : Path) (pl : Option (List Name)) (o : RetOpts) (i : RInst)
+    (h : (stepGet r p pl o).2 = .inst i) : i.quals = false ∧ ∀ q ∈ i.props, q.quals = false ∧ q.origin = none := by
+  unfold stepGet at h
+  simp only [getInstancePost_eq, retrieveSimple] at h
+  repeat' split at h
+  all_goals first
+    | (simp [errNs, errClass, errNotFound] at h; done)
+    | skip
+  simp at h
+  subst h
+  refine ⟨rfl, ?_⟩
+  intro q hq
+  simp only [removeClassOrigin, removeQualifiers, List.mem_map] at hq
+  obtain ⟨q1, ⟨q0, _, rfl⟩, rfl⟩ := hq
+  exact ⟨rfl, rfl⟩
+
+/-- **A PropertyList given as one string is the one-element list** (`_iparam_propertylist`). -/
+theorem C10_propertylist_string_is_singleton (n : NameArg) (lo iq ico : BoolArg) (x : Name) (mi : InstArg)
+    (cls : ClsArg) (ns : NsArg) (di : BoolArg) :
+    callToOp (.getInstance n lo iq ico (.str x)) = callToOp (.getInstance n lo iq ico (.list [x])) ∧
+    callToOp (.modifyInstance mi iq (.str x)) = callToOp (.modifyInstance mi iq (.list [x])) ∧
+    callToOp (.enumerateInstances cls ns lo di iq ico (.str x)) =
+      callToOp (.enumerateInstances cls ns lo di iq ico (.list [x])) :=
+  ⟨rfl, rfl, rfl⟩
+
+/-- **Leading and trailing slashes of a namespace argument are ignored** (`_iparam_namespace_from_namespace`) -/
+theorem C10_namespace_slashes_ignored (ni : InstArg) (cls : ClsArg) (n : Name) (lo di iq ico : BoolArg) (pl : PlArg) :
+    stripSlashes (stripSlashes n) = stripSlashes n ∧
+    callToOp (.createInstance ni (.str (stripSlashes n))) = callToOp (.createInstance ni (.str n)) ∧
+    callToOp (.enumerateInstanceNames cls (.str (stripSlashes n))) = callToOp (.enumerateInstanceNames cls (.str n)) ∧
+    callToOp (.enumerateInstances cls (.str (stripSlashes n)) lo di iq ico pl) =
+      callToOp (.enumerateInstances cls (.str n) lo di iq ico pl) := by
+  have hi := stripSlashes_idem n
+  refine ⟨hi, ?_, ?_, ?_⟩ <;> simp [callToOp, createNsArg, enumNsArg, nsOfArg, hi]
+
+example : stripSlashes "//root/a/".toList = "root/a".toList := by decide
+
+/-- **A class given as CIMClassName is the class name plus, when no namespace argument is given, its namespace** -/
+theorem C10_classname_object_is_name_and_namespace (c n : Name) (ns : NsArg) :
+    callToOp (.enumerateInstanceNames (.clsName c none) ns) = callToOp (.enumerateInstanceNames (.str c) ns) ∧
+    callToOp (.enumerateInstanceNames (.clsName c (some n)) .none) = callToOp (.enumerateInstanceNames (.str c) (.str n)) := by
+  refine ⟨?_, ?_⟩
+  · cases ns <;> rfl
+  · rfl
+
+/-! ### the map laws at full strength (any schema admitted by `Tame`, association instances in several namespaces
+    included); the `_partial` versions above are kept unchanged -/
+
+/-- **Get after Create.**  After a successful CreateInstance, GetInstance on the returned path answers the created
+    instance (normalised path; properties with the names of the class declaration, without qualifiers and class
+    origin, filtered by the PropertyList), whatever retrieval options are given. -/
+theorem C10_create_then_get (r r' : Repo) (nsArg : Option Name) (inst : Inst) (p : Path)
+    (ht : Tame r (.create nsArg inst)) (hinv : Inv r) (h : stepCreate r nsArg inst = (r', .path p))
+    (pl : Option (List Name)) (o : RetOpts) :
+    ∃ c, normOut (stepGet r' p pl o).2 = .inst ⟨inst.cls, normPath p,
+      removeClassOrigin (removeQualifiers (filterProps pl (adjustNames c inst.props))), false⟩ :=
+  create_then_get_full ht hinv h pl o
+
+/-- **Create twice.**  Repeating a successful CreateInstance answers ALREADY_EXISTS and changes nothing. -/
+theorem C10_create_twice_already_exists (r r' : Repo) (nsArg : Option Name) (inst : Inst) (p : Path)
+    (ht : Tame r (.create nsArg inst)) (hinv : Inv r) (h : stepCreate r nsArg inst = (r', .path p)) :
+    stepCreate r' nsArg inst = (r', errExists) :=
+  create_twice_full ht hinv h
+
+/-- **Get after Delete.**  After a successful DeleteInstance in a state satisfying the store invariant, GetInstance on
+    the same path answers NOT_FOUND. -/
+theorem C10_delete_then_get_not_found (r r' : Repo) (path : Path) (hinv : Inv r) (h : stepDelete r path = (r', .unit))
+    (pl : Option (List Name)) (o : RetOpts) : (stepGet r' path pl o).2 = errNotFound :=
+  delete_then_get_full hinv h pl o
+
+/-- **Delete touches no other (class, keybindings).**  In every namespace, GetInstance for a path whose class name or
+    keybindings differ in normal form from those of the deleted path answers what it answered before.  (A
+    multi-namespace association instance is deleted under the same class and keybindings in every target
+    namespace, which is why the namespace is not part of the condition; `C10_delete_frame_partial` has the
+    per-namespace statement for schemas without association classes.) -/
+theorem C10_delete_frame (r r' : Repo) (path q : Path) (hinv : Inv r) (h : stepDelete r path = (r', .unit))
+    (pl : Option (List Name)) (o : RetOpts)
+    (hne : bareKey (keyIn q (q.ns.getD r.dflt)) ≠ bareKey (keyIn path (path.ns.getD r.dflt))) :
+    normOut (stepGet r' q pl o).2 = normOut (stepGet r q pl o).2 :=
+  delete_frame_full hinv h q pl o hne
+
+/-- **Get after Modify.**  After a successful ModifyInstance, GetInstance answers the instance it answered before with
+    the supplied properties merged in: those named by the PropertyList (all supplied ones without PropertyList),
+    listed-but-missing ones with their class default, names in the case of the class declaration; every other
+    property as before. -/
+theorem C10_modify_then_get (r r' : Repo) (path : Path) (inst : Inst) (pl : Option (List Name))
+    (ht : Tame r (.modify path inst pl)) (hinv : Inv r) (h : stepModify r path inst pl = (r', .unit))
+    (pl' : Option (List Name)) (o : RetOpts) :
+    ∃ c oldCls oldProps,
+      normOut (stepGet r path none o).2 = .inst ⟨oldCls, keyIn path (path.ns.getD r.dflt),
+        removeClassOrigin (removeQualifiers oldProps), false⟩ ∧
+      normOut (stepGet r' path pl' o).2 = .inst ⟨oldCls, keyIn path (path.ns.getD r.dflt),
+        removeClassOrigin (removeQualifiers (filterProps pl'
+          (updateProps oldProps (adjustNames c (reduceByPl c inst.props pl))))), false⟩ :=
+  modify_then_get_full ht hinv h pl' o
+
+/-- **A refused CreateInstance changes nothing** (no hypotheses). -/
+theorem C10_refused_create_changes_nothing (r : Repo) (nsArg : Option Name) (inst : Inst) (e : PyExc)
+    (h : (stepCreate r nsArg inst).2 = .err e) : (stepCreate r nsArg inst).1 = r :=
+  stepCreate_err_state r nsArg inst e h
+
+/-- non-vacuity of the laws: in the two-namespace association schema `demoRepoA` (fresh, so the invariant holds) the
+    cross-namespace creation `demoCreateAssoc` is admitted by `Tame`; it is refused there (its end points do not
+    exist), and the creation of an end point succeeds -/
+example : Inv demoRepoA ∧ Tame demoRepoA demoCreateAssoc := by
+  refine ⟨inv_empty demoRepoA (by unfold NsUnique demoRepoA; decide)
+    (by intro e he; simp [demoRepoA] at he; rcases he with rfl | rfl <;> rfl), ?_⟩
+  have hmem : ∀ e ∈ demoRepoA.nss, e.classes = [demoCls, demoAssoc] := by
+    intro e he; simp [demoRepoA] at he; rcases he with rfl | rfl <;> rfl
+  refine Or.inr ⟨?_, ?_, ?_⟩
+  · intro e he c hc
+    rw [hmem e he] at hc
+    simp at hc
+    rcases hc with rfl | rfl
+    · refine ⟨?_, ?_⟩
+      · intro d hd hty; simp [demoCls] at hd; rcases hd with rfl | rfl <;> exact absurd hty (by decide)
+      · intro d hd q; simp [demoCls] at hd; rcases hd with rfl | rfl <;> simp
+    · refine ⟨?_, ?_⟩
+      · intro d hd _; simp [demoAssoc] at hd; rcases hd with rfl | rfl <;> rfl
+      · intro d hd q; simp [demoAssoc] at hd; rcases hd with rfl | rfl <;> simp
+  · intro e1 he1 e2 he2 n c1 c2 h1 h2
+    rw [hmem e1 he1] at h1; rw [hmem e2 he2] at h2
+    rw [h1] at h2; cases h2; rfl
+  · refine ⟨?_, ?_⟩
+    · intro p hp _
+      simp at hp
+      rcases hp with rfl | rfl <;> exact Or.inr ⟨_, rfl⟩
+    · intro p hp _
+      simp at hp
+      rcases hp with rfl | rfl <;> rfl
+
+def demoCreateP : Inst :=
+  { cls := "tst_p".toList, props := [{ name := "NAME".toList, ty := "string".toList, isArr := false,
+                                        val := Val.one (KV.sc (Scalar.str "x".toList)) }] }
+
+example : (match (stepCreate demoRepoA (some "ROOT/B".toList) demoCreateP).2 with | .path _ => true | _ => false) = true := by
+  decide
+
+/-! ### case and order of names: the other operations; status codes of DeleteInstance -/
+
+/-- **DeleteInstance does not depend on case or order in the path**: two requests whose paths have the same normal
+    form (class name, namespace, key names in any lexical case, keybindings in any order) have the same outcome and
+    leave the same reference map behind. -/
+theorem C10_delete_case_insensitive (r : Repo) (p q : Path) (hinv : Inv r)
+    (h : keyIn p (p.ns.getD r.dflt) = keyIn q (q.ns.getD r.dflt)) :
+    (stepDelete r p).2 = (stepDelete r q).2 ∧ abs (stepDelete r p).1 = abs (stepDelete r q).1 := by
+  have hp := sim_delete'' r p hinv
+  have hq := sim_delete'' r q hinv
+  have hd : (abs r).dflt = r.dflt := rfl
+  have hs := specDelete_congr (abs r) (p := p) (q := q) (by rw [hd]; exact h)
+  refine ⟨?_, by rw [hp.2.1, hq.2.1, hs]⟩
+  have : normOut (stepDelete r p).2 = normOut (stepDelete r q).2 := by rw [hp.1, hq.1, hs]
+  -- outcomes of DeleteInstance carry no paths: normalisation is the identity on them
+  have hshape : ∀ x : Path, (∃ e, (stepDelete r x).2 = .err e) ∨ (stepDelete r x).2 = .unit := by
+    intro x
+    have hx := (sim_delete'' r x hinv).1
+    unfold specDelete at hx
+    simp only [] at hx
+    repeat' split at hx
+    all_goals first
+      | exact Or.inl ⟨_, normOut_eq_err hx⟩
+      | exact Or.inr (normOut_eq_unit hx)
+  rcases hshape p with ⟨e, he⟩ | he <;> rcases hshape q with ⟨e', he'⟩ | he' <;> simp_all [normOut]
+
+/-- **The enumerations do not depend on the case of the class name and of the namespace** (and EnumerateInstances
+    not on the retrieval options). -/
+theorem C10_enumerate_case_insensitive (r : Repo) (hinv : Inv r) (ns ns' : Option Name) (cls cls' : Name)
+    (di : Option Bool) (pl : Option (List Name)) (o o' : RetOpts)
+    (hn : lower (effNs r ns) = lower (effNs r ns')) (hc : lower cls = lower cls') :
+    normOut (stepEnumNames r ns cls).2 = normOut (stepEnumNames r ns' cls').2 ∧
+    normOut (stepEnumInsts r ns cls di pl o).2 = normOut (stepEnumInsts r ns' cls' di pl o').2 := by
+  have hd : (abs r).dflt = r.dflt := rfl
+  refine ⟨?_, ?_⟩
+  · have e := specEnumNames_congr (abs r) (ns := ns) (ns' := ns') (cls := cls) (cls' := cls')
+      (by rw [hd]; exact hn) hc
+    rw [(sim_enumNames r ns cls hinv).1, (sim_enumNames r ns' cls' hinv).1, e]
+  · have e := specEnumInsts_congr (abs r) (ns := ns) (ns' := ns') (cls := cls) (cls' := cls') di pl o o'
+      (by rw [hd]; exact hn) hc
+    rw [(sim_enumInsts r ns cls di pl hinv o).1, (sim_enumInsts r ns' cls' di pl hinv o').1, e]
+
+/-- **Status codes of DeleteInstance, exactly** (in a state satisfying the store invariant): INVALID_NAMESPACE iff the
+    namespace does not exist; otherwise INVALID_CLASS iff the class of the path does not exist there; otherwise
+    NOT_FOUND iff no stored key equals the path; otherwise success. -/
+theorem C10_delete_status_exact (r : Repo) (path : Path) (hinv : Inv r) :
+    let ns := effNs r path.ns
+    let p := reqPath ns path
+    (findNs r ns = none → (stepDelete r path).2 = errNs) ∧
+    (∀ e, findNs r ns = some e → findCls e.classes path.cls = none → (stepDelete r path).2 = errClass) ∧
+    (∀ e c, findNs r ns = some e → findCls e.classes path.cls = some c →
+        (∀ s ∈ e.insts, normPath s.key ≠ normPath p) → (stepDelete r path).2 = errNotFound) ∧
+    (∀ e c s, findNs r ns = some e → findCls e.classes path.cls = some c → lookupInst e.insts p = some s →
+        (stepDelete r path).2 = .unit) := by
+  intro ns p
+  have hsim := (sim_delete'' r path hinv).1
+  have hp : (reqPath (effNs r path.ns) path).cls = path.cls := rfl
+  refine ⟨?_, ?_, ?_, ?_⟩
+  · intro h; unfold stepDelete; simp only [ns] at h; simp [h]
+  · intro e h hc; unfold stepDelete; simp only [ns] at h; simp [h, hp, hc]
+  · intro e c h hc hall
+    have hl : lookupInst e.insts (reqPath (effNs r path.ns) path) = none := by
+      unfold lookupInst
+      apply List.find?_eq_none.mpr
+      intro s hs hpe
+      exact hall s hs (pathEq_iff.mp hpe)
+    unfold stepDelete; simp only [ns] at h; simp [h, hp, hc, hl]
+  · intro e c s h hc hl
+    simp only [ns] at h
+    simp only [p, ns] at hl
+    apply normOut_eq_unit
+    rw [hsim]
+    unfold specDelete
+    have hd : (abs r).dflt = r.dflt := rfl
+    simp only [hd, sFindNs_abs]
+    have h' : findNs r (path.ns.getD r.dflt) = some e := h
+    rw [h']
+    simp only [Option.map_some]
+    have hcc : (absNs e).classes = e.classes := rfl
+    rw [hcc, hc]
+    simp only []
+    rw [absNs_map, keyIn_eq, sLookup_abs]
+    have hl' : lookupInst e.insts (reqPath (path.ns.getD r.dflt) path) = some s := hl
+    rw [hl']
+    rfl
+
+/-! ### isolation of the objects passed in and handed out -/
+
+section Isolation
+open Pywbem.Model.StoreAlias Proofs.StoreAlias
+
+/-- **Isolation.**  Replay, for any history of the six operations on any stored entries, the copy calls the code
+    makes (client-side `copy()`, dispatcher `deepcopy`, `from_instance`, the store's `create`/`get`/`iter_values`
+    copies, `path.copy()` of the enumerations, the per-namespace copies of a multi-namespace modify – Model/
+    StoreAlias.lean).  If the objects the client passes in consist of nodes it made itself or was handed before,
+    then after the history no node held by the repository (keys and stored instances with all their property,
+    value, path and nested reference objects) is a node the client holds: whatever the client changes in the
+    objects it passed in or got back, the repository is not touched. -/
+theorem C10_isolation (ops : List AOp) (hin : InputsOk cfg0 {} ops) :
+    ∀ i ∈ storeIds (runA cfg0 {} ops), i ∉ (runA cfg0 {} ops).client ∧ ∀ n, i ≠ .cli n := by
+  have h := iso_run ops {} iso_init hin
+  intro i hi
+  refine ⟨h.disjoint i hi, ?_⟩
+  intro n hn
+  obtain ⟨m, hm, _⟩ := h.storeSrv i hi
+  rw [hn] at hm; cases hm
+
+/-- non-vacuity: a client-made instance with a key property holding a mutable value, created and read back -/
+def demoInstO : InstO := { id := .cli 0, props := [{ id := .cli 1, vals := [.cli 2] }, { id := .cli 3, vals := [] }], path := none }
+def demoNameO : PathO := { id := .cli 4, kids := [.cli 5] }
+def demoAOps : List AOp := [.create demoInstO [0], .get demoNameO 0, .enumNames [0], .modify demoInstO 0 1, .enumInsts [0]]
+
+example : InputsOk cfg0 {} demoAOps ∧ (runA cfg0 {} demoAOps).store.length = 1 := by
+  refine ⟨?_, by decide⟩
+  simp only [demoAOps, InputsOk, InputOk, AOp.inputIds, and_true]
+  refine ⟨?_, ?_, ?_, ?_, ?_⟩ <;> intro i hi <;> simp [demoInstO, demoNameO, InstO.nodes, PropO.nodes, PathO.nodes] at hi
+  all_goals (first | trivial | (rcases hi with rfl | rfl | rfl | rfl <;> exact Or.inl ⟨_, rfl⟩) | (rcases hi with rfl | rfl <;> exact Or.inl ⟨_, rfl⟩))
+
+/-- **Before fix F6** (`InMemoryObjectStore.create` used the caller's path object as dictionary key) the statement is
+    false: after one CreateInstance the client holds the key of the stored instance. -/
+theorem C10_isolation_fails_without_key_copy :
+    ∃ i ∈ storeIds (runA { keyCopy := false } {} [.create demoInstO [0]]),
+      i ∈ (runA { keyCopy := false } {} [.create demoInstO [0]]).client := by decide
+
+/-- … likewise without the deep copy in `create` (seeded mutant m3: the stored instance carries the returned path) and
+    without the copy in `get` (seeded mutant m4: GetInstance hands out the stored object). -/
+theorem C10_isolation_fails_without_create_copy :
+    ∃ i ∈ storeIds (runA { createCopy := false } {} [.create demoInstO [0]]),
+      i ∈ (runA { createCopy := false } {} [.create demoInstO [0]]).client := by decide
+
+theorem C10_isolation_fails_without_get_copy :
+    ∃ i ∈ storeIds (runA { getCopy := false } {} [.create demoInstO [0], .get demoNameO 0]),
+      i ∈ (runA { getCopy := false } {} [.create demoInstO [0], .get demoNameO 0]).client := by decide
+
+end Isolation
 
 end C10
